@@ -45,6 +45,9 @@ ASSUMPTIONS = [
     "external functions: deterministic stub on both sides (ints 3*sum(args)+1 wrapped to the result type, floats sum(args)+0.5)",
     "a call that makes no progress for 1 s wall (6 s when re-run alone) although the reference run ended within <= 400 block steps is "
     "a hang; a hang/trap/mismatch is reported only when it reproduces on a fresh instance of a module holding that function alone",
+    "the watchdog is the only wall-clock dependence: a mistranslated loop that is finite but long (e.g. 2^32 iterations) is reported as hang "
+    "or as wrong-result depending on machine load, and the number of calls compared after such a call varies slightly between runs; "
+    "after 16 (thorough 100) hangs in one node process the remaining calls of that process are skipped and the run is marked capped",
     "c_to_ir(src, WasmArchitecture()) raises ValueError in api.get_arch (WasmArchitecture is not an `Architecture`); the C corpus is "
     "compiled with CBuilder(WasmArchitecture().info, COptions()) which is what c_to_ir does after get_arch",
 ]
@@ -56,7 +59,8 @@ CLAIM = {"text": "inside the stated bound every module that ir_to_wasm accepts i
 COMPILE_CPU_S = 30
 CALL_TIMEOUT_MS = 1000
 CONFIRM_TIMEOUT_MS = 6000
-MAX_HANGS_PER_NODE = 16
+MAX_HANGS_PER_NODE = {"quick": 16, "thorough": 100}
+_max_hangs = 16
 JOBS_PER_NODE = 400
 PURE_BATCH = 49
 CFG_BATCH = 12
@@ -252,7 +256,7 @@ def node_run(jobs, driver, timeout_ms=CALL_TIMEOUT_MS):
     for i in range(0, len(jobs), JOBS_PER_NODE):
         chunk = jobs[i:i + JOBS_PER_NODE]
         try:
-            r = subprocess.run([NODE, driver], input=json.dumps({"jobs": chunk, "call_timeout_ms": timeout_ms, "max_hangs": MAX_HANGS_PER_NODE}).encode(), capture_output=True, timeout=7200)
+            r = subprocess.run([NODE, driver], input=json.dumps({"jobs": chunk, "call_timeout_ms": timeout_ms, "max_hangs": _max_hangs}).encode(), capture_output=True, timeout=7200)
         except subprocess.TimeoutExpired:
             raise NodeFailure("node did not finish a batch of %d jobs" % len(chunk))
         if r.returncode != 0:
@@ -1143,6 +1147,10 @@ def confirm(p, findings, driver):
                     p.collect("unclassified", "not reproduced in isolation: %s :: %s" % (f["key"], f["what"][:120]))
                     by_key[f["key"]].pop(0)
             todo = rest
+    for key, fs in sorted(by_key.items()):
+        if fs:
+            p.count("findings_left_unconfirmed", len(fs))
+            p.collect("unclassified", "3 candidates of %s did not reproduce in isolation, %d more not tried" % (key, len(fs)))
 
 
 # --------------------------------------------------------------------------- work items
@@ -1280,8 +1288,10 @@ UNITS_PER_ROUND = 1500
 
 def worker(p, shard, tier, seed, driver):
     """All items of the shard go through the pipeline together (few node processes: start-up dominates small batches)."""
+    global _max_hangs
     from vf.core import use_repo
     use_repo()
+    _max_hangs = MAX_HANGS_PER_NODE.get(tier, 16)
     units = []
     for idx, item in shard:
         cases = cases_of(item, tier, seed)
@@ -1325,7 +1335,7 @@ def run(ctx):
         raise HarnessError("node driver failed: %s" % sorted(ctx.sets.get("unclassified", ()))[:3])
     if c.get("calls_not_executed_hang_cap"):
         ctx.cap("%d calls were not executed: after %d non-terminating calls in one node process the remaining calls of that process are skipped "
-                "(the tree under test mistranslates loops wholesale)" % (c["calls_not_executed_hang_cap"], MAX_HANGS_PER_NODE))
+                "(the tree under test mistranslates loops wholesale)" % (c["calls_not_executed_hang_cap"], MAX_HANGS_PER_NODE.get(ctx.tier, 16)))
     if c.get("harness_wasm_reader_failed") or c.get("harness_build_errors"):
         ctx.cap("%d modules could not be built or read by the harness" % (c.get("harness_wasm_reader_failed", 0) + c.get("harness_build_errors", 0)))
 
